@@ -12,12 +12,16 @@ package cmd
 //	CreateSystem → CreateCommand → server sub-command flag set → ParseFlags(args) → system.Load(flags) → system.Configure()
 //
 // Oracle = table derived from docs/pages/deployment/configuration.rst ("Strict mode", "Secrets", "Ordering") and the
-// option help texts (see c20Rules). Because start-up stops at the first refusal, every mode is driven as an
-// error-repair chain: an error must be attributable to a rule the configuration currently violates; that rule is then
-// repaired (its dimension set to the secure value, all else unchanged) and start-up is retried, until the node
-// configures. Hence EVERY violated rule of the configuration is demanded to show up as a refusal, not only the first,
-// and each is eventually tested with all other violations repaired but all unrelated options still in place.
-// When a chain ends in a configured node the documented capabilities are probed (dummy means, remote JSON-LD contexts,
+// option help texts (see c20Rules). The statement constrains WHICH configurations are refused, not the wording of the
+// refusal, so a refusal is attributed to a rule by causation only: per mode the fully repaired configuration (every
+// violated rule's dimension set to its secure value; unrelated options, channels and delivery untouched) must start, and
+// for every violated rule the configuration that differs from it in that rule's dimension alone must fail to start
+// ("X is refused" = start-up fails while only X is violated and succeeds once X alone is repaired). A configuration
+// with two or more violations is additionally started as given. Non-strict mode repairs only what stops start-up in
+// either mode and must then start with all strict-mode-only violations still in place. Error texts feed evidence
+// classes (does today's wording name the rule?) and messages, never a verdict. Only when the fully repaired
+// configuration starts in neither mode is the run inconclusive (fixture problem).
+// On every configured node the documented capabilities are probed (dummy means, remote JSON-LD contexts,
 // plain-http outbound requests, IAM client endpoint rules) with all outbound traffic diverted to a recorder.
 
 import (
@@ -185,7 +189,8 @@ type c20Rule struct {
 	doc      string
 	violated func(c c20Case) bool
 	repair   func(c c20Case) c20Case
-	match    func(errText string) bool // does this start-up error report this rule?
+	dim      string                    // the dimension whose value violates the rule (repair sets it to the secure value)
+	match    func(errText string) bool // HINT only (evidence classes, messages): does the error text of the code as it is today name this rule? Never part of a verdict.
 }
 
 func c20Has(subs ...string) func(string) bool {
@@ -201,54 +206,54 @@ func c20Has(subs ...string) func(string) bool {
 }
 
 var c20Rules = []c20Rule{
-	{id: "url-insecure", mode: c20StrictOnly,
+	{id: "url-insecure", dim: "url", mode: c20StrictOnly,
 		doc:      "url: 'Must be HTTPS when strictmode is set'; ParsePublicURL: strict ⇒ https only, no IP, no RFC 2606 reserved name",
 		violated: func(c c20Case) bool { u := c.val("url"); return u != "unset" && !strings.HasPrefix(u, "pub") },
 		repair:   func(c c20Case) c20Case { return c.with("url", "pub") },
 		match:    c20Has("invalid 'url'")},
-	{id: "url-unset", mode: c20Both,
+	{id: "url-unset", dim: "url", mode: c20Both,
 		doc:      "url: 'Public facing URL of the server (required)'",
 		violated: func(c c20Case) bool { return c.val("url") == "unset" },
 		repair:   func(c c20Case) c20Case { return c.with("url", "pub") },
 		match:    c20Has("'url' must be configured")},
-	{id: "sql-implicit", mode: c20StrictOnly,
+	{id: "sql-implicit", dim: "sql", mode: c20StrictOnly,
 		doc:      "'the crypto.storage backend and the storage.sql.connection connection string must explicitly be set'",
 		violated: func(c c20Case) bool { return c.val("sql") == "unset" },
 		repair:   func(c c20Case) c20Case { return c.with("sql", "sqlite") },
 		match:    c20Has("storage.sql.connection", "strict")},
-	{id: "crypto-implicit", mode: c20StrictOnly,
+	{id: "crypto-implicit", dim: "crypto", mode: c20StrictOnly,
 		doc:      "'the crypto.storage backend ... must explicitly be set'",
 		violated: func(c c20Case) bool { return c.val("crypto") == "unset" },
 		repair:   func(c c20Case) c20Case { return c.with("crypto", "fs") },
 		match:    c20Has("configure crypto", "explicit", "strict")},
-	{id: "tls-off", mode: c20StrictOnly,
+	{id: "tls-off", dim: "tls", mode: c20StrictOnly,
 		doc: "'Private transactions can only be exchanged over authenticated nodes. Therefore is requires TLS to be configured through tls.{certfile,certkeyfile,truststore}'; " +
 			"tls.certfile / tls.certkeyfile: 'Required in strict mode' (did:nuts/gRPC network only). Independent of tls.offload / tls.certheader: offloading only concerns " +
 			"INCOMING gRPC connections ('Whether to enable TLS offloading for incoming gRPC connections'), the certificate is still the client certificate of outgoing ones",
 		violated: func(c c20Case) bool { return c.val("tls") == "none" && c.hasNuts() },
 		repair:   func(c c20Case) c20Case { return c.with("tls", "full") },
 		match:    c20Has("tls", "strict")},
-	{id: "irma-scheme", mode: c20StrictOnly,
+	{id: "irma-scheme", dim: "irma", mode: c20StrictOnly,
 		doc:      "'it requires auth.irma.schememanager=pbdf'",
 		violated: func(c c20Case) bool { return c.val("irma") == "irma-demo" },
 		repair:   func(c c20Case) c20Case { return c.with("irma", "pbdf") },
 		match:    c20Has("irma", "pbdf")},
-	{id: "url-ip6-not-a-web-did", mode: c20MayRefuse,
+	{id: "url-ip6-not-a-web-did", dim: "url", mode: c20MayRefuse,
 		doc:      "(not a rule) an IPv6 literal cannot be written as a did:web identifier, so the VDR refuses it whatever the mode",
 		violated: func(c c20Case) bool { return c.val("url") == "ip6" },
 		repair:   func(c c20Case) c20Case { return c.with("url", "pub") },
 		match:    c20Has("does not represent a web did")},
-	{id: "offload-without-certheader", mode: c20MayRefuse,
+	{id: "offload-without-certheader", dim: "tlscertheader", mode: c20MayRefuse,
 		doc:      "(not a strict-mode rule) tls.offload: 'If enabled tls.certheader must be configured as well' - refused in either mode, but only where offloading is actually set up (certificate present, did:nuts enabled)",
 		violated: func(c c20Case) bool { return c.val("tlsoffload") == "incoming" && c.val("tlscertheader") == "unset" },
 		repair:   func(c c20Case) c20Case { return c.with("tlscertheader", "set") },
 		match:    c20Has("tls.certheader must be configured")},
-	{id: "legacy-key", mode: c20Both,
+	{id: "legacy-key", dim: "legacy", mode: c20Both,
 		doc:      "network.{certfile,certkeyfile,truststorefile} moved to tls.*: start-up stops in either mode",
 		violated: func(c c20Case) bool { return c.val("legacy") != "unset" },
 		repair:   func(c c20Case) c20Case { return c.with("legacy", "unset") },
 		match:    c20Has("moved to tls")},
-	{id: "cli-secret", mode: c20Both,
+	{id: "cli-secret", dim: "secret", mode: c20Both,
 		doc:      "'All options ending with token or password are considered secrets and can only be set through environment variables or the config file.'",
 		violated: func(c c20Case) bool { return strings.HasSuffix(c.val("secret"), ":flag") },
 		repair:   func(c c20Case) c20Case { return c.with("secret", "none") },
@@ -713,8 +718,13 @@ func c20Probe(x *h.Ctx, c c20Case, b c20Boot, strict bool) {
 		return !errors.Is(err, notary.ErrUnknownSigningMeans)
 	}
 	dummyVP := vc.VerifiablePresentation{Type: []ssi.URI{vc.VerifiablePresentationTypeV1URI(), ssi.MustParseURI("DummyVerifiablePresentation")}}
+	// registered = treated differently from a presentation type that certainly has no verifier (no reliance on the wording)
+	const noSuchVP = "VerifNoSuchPresentation"
+	unknownVP := vc.VerifiablePresentation{Type: []ssi.URI{vc.VerifiablePresentationTypeV1URI(), ssi.MustParseURI(noSuchVP)}}
 	_, vpErr := authEngine.ContractNotary().VerifyVP(dummyVP, nil)
-	dummyVerifier := vpErr == nil || !strings.Contains(vpErr.Error(), "unknown VerifiablePresentation type")
+	_, unkErr := authEngine.ContractNotary().VerifyVP(unknownVP, nil)
+	dummyVerifier := vpErr == nil || unkErr == nil ||
+		strings.ReplaceAll(vpErr.Error(), "DummyVerifiablePresentation", "T") != strings.ReplaceAll(unkErr.Error(), noSuchVP, "T")
 	dummySigner := registered("dummy")
 	switch {
 	case strict && (dummySigner || dummyVerifier):
@@ -889,7 +899,7 @@ func c20Probe(x *h.Ctx, c c20Case, b c20Boot, strict bool) {
 }
 
 // ---------------------------------------------------------------------------------------------------------------------
-// run: the strict / non-strict pair as two error-repair chains
+// run: the strict / non-strict pair
 
 func c20Valid(c c20Case) bool {
 	for _, d := range c20Dims {
@@ -967,74 +977,153 @@ func c20Run(x *h.Ctx, c c20Case) {
 		x.Class("secure-configuration")
 	}
 
-	for _, strict := range []bool{true, false} {
-		mode := "nonstrict"
-		if strict {
-			mode = "strict"
+	// Attribution is by CAUSATION, never by the wording of an error: a rule counts as refused when start-up fails with that
+	// rule's dimension at its violating value and everything else that could stop start-up repaired, while the fully
+	// repaired configuration (same unrelated options, same channels) starts. Error texts only feed evidence classes.
+	var active []c20Rule
+	for _, r := range c20Rules {
+		if r.violated(c) {
+			active = append(active, r)
 		}
-		cur := c
-		for step := 0; ; step++ {
-			if step > len(c20Rules)+1 {
-				x.Fatalf("%s chain does not terminate", mode)
+	}
+	full := c
+	for _, r := range active {
+		full = r.repair(full)
+	}
+	isolate := func(base c20Case, r c20Rule) c20Case { return base.with(r.dim, c.val(r.dim)) }
+	boot := func(cfg c20Case, strict bool) (c20Boot, func()) {
+		b, stop := c20Start(x, cfg, p, strict)
+		x.Cleanup(stop)
+		return b, stop
+	}
+	hint := func(r c20Rule, err error) {
+		if r.match(err.Error()) {
+			x.Classf("refusal-text:names-the-rule:%s", r.id)
+		} else {
+			x.Classf("refusal-text:other-wording:%s", r.id)
+		}
+	}
+	acceptSig := func(r c20Rule, mode string) string {
+		if r.mode == c20Both {
+			return fmt.Sprintf("accepts:%s:%s", r.id, mode)
+		}
+		sig := "strict-accepts:" + r.id
+		if r.id == "url-insecure" {
+			sig += ":" + c.val("url")
+		}
+		return sig
+	}
+
+	// ---- strict mode ------------------------------------------------------------------------------------------------
+	bs, stopS := boot(full, true)
+	strictBaseOK := bs.err() == nil
+	if !strictBaseOK {
+		stopS()
+		bn, stopN := boot(full, false)
+		errN := bn.err()
+		stopN()
+		if errN != nil {
+			x.Fatalf("the fully repaired configuration does not start in either mode (fixture problem): strict: %v | non-strict: %v\nvalues=%v ch=%v misc=%v", bs.err(), errN, full.V, full.Ch, full.Misc)
+		}
+		x.Violate("refuses-compliant:strict", "strict mode refuses a configuration that complies with every documented rule and starts in non-strict mode: %v; values=%v misc=%v", bs.err(), full.V, full.Misc)
+	} else {
+		c20Probe(x, full, bs, true)
+		x.Class("base-starts:strict")
+		stopS()
+		demanded := 0
+		for _, r := range active {
+			if r.mode == c20MayRefuse {
+				continue
 			}
-			b, stop := c20Start(x, cur, p, strict)
-			x.Cleanup(stop)
+			demanded++
+			b, stop := boot(isolate(full, r), true)
 			err := b.err()
+			stop()
 			if err == nil {
-				// the node configures: no rule that stops start-up may still be violated
-				for _, r := range c20Rules {
-					if !r.violated(cur) {
-						continue
-					}
-					if r.mode == c20MayRefuse {
-						continue
-					}
-					if r.mode == c20Both {
-						x.Violate(fmt.Sprintf("accepts:%s:%s", r.id, mode), "%s mode: configuration violating '%s' (%s) configured without error; case=%+v", mode, r.id, r.doc, cur)
-					} else if strict {
-						sig := "strict-accepts:" + r.id
-						if r.id == "url-insecure" {
-							sig += ":" + cur.val("url")
-						}
-						x.Violate(sig, "strict mode: configuration violating '%s' (%s) configured without error; values=%v", r.id, r.doc, cur.V)
+				x.Violate(acceptSig(r, "strict"), "strict mode: a configuration whose only violation is '%s' (%s) configured without error; values=%v misc=%v", r.id, r.doc, isolate(full, r).V, c.Misc)
+				continue
+			}
+			hint(r, err)
+			x.Classf("refused:strict:%s", r.id)
+			if b.loadErr != nil {
+				x.Classf("refused-at-load:%s", r.id)
+			}
+		}
+		if demanded >= 2 {
+			// the configuration as given, with all its violations at once
+			b, stop := boot(c, true)
+			err := b.err()
+			stop()
+			if err == nil {
+				var ids []string
+				for _, r := range active {
+					if r.mode != c20MayRefuse {
+						ids = append(ids, r.id)
 					}
 				}
-				c20Probe(x, cur, b, strict)
-				if step == 0 {
-					x.Classf("starts-at-once:%s", mode)
-				}
-				stop()
-				break
+				x.Violate("strict-accepts-combination:"+strings.Join(ids, "+"), "strict mode: the configuration violating %v at once configured without error although each violation alone is refused; values=%v misc=%v", ids, c.V, c.Misc)
+			}
+			x.Class("combination-booted:strict")
+		}
+	}
+
+	// ---- non-strict mode: the same settings; only what stops start-up in either mode is repaired -------------------------
+	baseNS := c
+	nsDims := map[string]bool{}
+	for _, r := range active {
+		if r.mode != c20StrictOnly {
+			baseNS = r.repair(baseNS)
+			nsDims[r.dim] = true
+		}
+	}
+	bn, stopN := boot(baseNS, false)
+	if errN := bn.err(); errN != nil {
+		stopN()
+		var culprits []string
+		for _, r := range active {
+			if r.mode != c20StrictOnly || nsDims[r.dim] {
+				continue
+			}
+			b, stop := boot(isolate(full, r), false)
+			if b.err() != nil {
+				culprits = append(culprits, r.id)
 			}
 			stop()
-			// attribute the refusal
-			var hit *c20Rule
-			for i := range c20Rules {
-				if c20Rules[i].match(err.Error()) {
-					hit = &c20Rules[i]
-					break
-				}
+		}
+		switch {
+		case len(culprits) > 0:
+			for _, id := range culprits {
+				x.Violate("nonstrict-refuses:"+id, "non-strict mode refuses a setting that is documented as strict-mode only (%s): %v", id, errN)
 			}
-			if hit == nil {
-				x.Fatalf("%s mode: start-up error not attributable to any documented rule (fixture problem?): %v\nvalues=%v ch=%v misc=%v", mode, err, cur.V, cur.Ch, cur.Misc)
+		case !strictBaseOK:
+			// already reported above
+		default:
+			bf, stopF := boot(full, false)
+			errF := bf.err()
+			stopF()
+			if errF != nil {
+				x.Violate("refuses-compliant:nonstrict", "non-strict mode refuses a fully compliant configuration that starts in strict mode: %v; values=%v misc=%v", errF, full.V, full.Misc)
+			} else {
+				x.Violate("nonstrict-refuses-combination", "non-strict mode refuses the combination of strict-mode-only settings %v although each alone is accepted: %v", baseNS.V, errN)
 			}
-			if !hit.violated(cur) {
-				x.Violate(fmt.Sprintf("refuses-compliant:%s:%s", hit.id, mode), "%s mode: refused for '%s' although the configuration complies with it: %v; values=%v", mode, hit.id, err, cur.V)
-				break
+		}
+	} else {
+		c20Probe(x, baseNS, bn, false)
+		x.Class("base-starts:nonstrict")
+		stopN()
+		for _, r := range active {
+			if r.mode != c20Both {
+				continue
 			}
-			if hit.mode == c20StrictOnly && !strict {
-				sig := "nonstrict-refuses:" + hit.id
-				x.Violate(sig, "non-strict mode refused a setting that is documented as strict-mode only (%s): %v", hit.id, err)
-				break
+			b, stop := boot(isolate(baseNS, r), false)
+			err := b.err()
+			stop()
+			if err == nil {
+				x.Violate(acceptSig(r, "nonstrict"), "non-strict mode: a configuration violating '%s' (%s) configured without error; values=%v misc=%v", r.id, r.doc, isolate(baseNS, r).V, c.Misc)
+				continue
 			}
-			if b.loadErr != nil {
-				x.Classf("refused-at-load:%s", hit.id)
-			}
-			x.Classf("refused:%s:%s", mode, hit.id)
-			if step > 0 {
-				x.Classf("refused-after-repair:%s:%s", mode, hit.id)
-			}
-			cur = hit.repair(cur)
+			hint(r, err)
+			x.Classf("refused:nonstrict:%s", r.id)
 		}
 	}
 }
